@@ -615,6 +615,58 @@ def one_step_cell_2d(kernel, boundary, rho, sigma, seed, n=200000, bins=5):
                              "anti": [float(after[0, -1] / e), float(after[-1, 0] / e)]}}
 
 
+def multi_step_cell(kernel, target, beta, nu, m, seed, n=40000, d=1):
+    """MULTI-step invariance oracle: exact i.i.d. draws from the tempered target (product over `d` coordinates of the 1-D
+    target) -> ONE call of the real `parallel_mcmc` with n_steps = n_max = m, i.e. exactly max(1, m*d) passes of ONE stateful
+    runner with everything enabled (adaptation as in the code) -> chi-square of the 20-bin histogram of coordinate 0 against the
+    exact bin probabilities.  Every pass is pi-invariant for the step sizes it is given and the step sizes are functions of
+    ensemble means over n walkers, so each walker's law deviates from pi by O(1/n) — far below the statistical resolution
+    1/sqrt(n); the number of passes is deterministic (n_max <= n_steps: C03_run_iteration_bounds).  Catches what a single step
+    from a fresh runner cannot: state carried by the runner from one pass to the next (caches, stale draws, stale coefficients)."""
+    import tempest.mcmc as M
+    from tempest.modes import ModeStatistics
+    rs = np.random.RandomState(seed)
+    u = np.clip(_target_sample(target, beta, rs.rand(n, d)), 0.0, 1.0)
+    lfun = TARGETS[target]["l"]
+
+    def log_likelihood(x):
+        return np.sum(lfun(np.asarray(x, dtype=float)), axis=1), None
+
+    mo = MODE["narrow" if target == "interior" else "wide"]
+    ms = ModeStatistics(np.full((1, d), mo["mu"]), (mo["var"] * np.eye(d))[None], np.array([nu]))
+    logl, _ = log_likelihood(u)
+    edges = np.asarray(_target_sample(target, beta, np.linspace(0.0, 1.0, NBINS + 1)), dtype=float)
+    edges[0], edges[-1] = 0.0, 1.0
+    prob = np.diff(_target_cdf(target, beta, edges))
+    ok = prob > 0
+    with warnings.catch_warnings():
+        warnings.simplefilter("ignore")
+        with common.patched(np.random, "gamma", rs.gamma), common.patched(np.random, "randn", rs.randn), \
+                common.patched(np.random, "rand", rs.rand):
+            out = M.parallel_mcmc(u, u.copy(), logl, None, np.zeros(n, dtype=int), beta, ms, log_likelihood, lambda t: t, None,
+                                  m, m, kernel, None, None, False)
+    v = np.asarray(out[0])[:, 0]
+    expct = n * prob
+    before = np.histogram(u[:, 0], bins=edges)[0]
+    after = np.histogram(v, bins=edges)[0]
+    chi_b = float(np.sum((before[ok] - expct[ok]) ** 2 / expct[ok]))
+    chi_a = float(np.sum((after[ok] - expct[ok]) ** 2 / expct[ok]))
+    thr = chi2_threshold()
+    return {"chi2": chi_a, "chi2_before": chi_b, "threshold": thr, "fails": chi_a > thr and chi_b <= thr, "passes": int(out[6]),
+            "edge_ratio": [float(after[0] / expct[0]), float(after[-1] / expct[-1])], "acceptance": float(out[5])}
+
+
+CELLS_MULTI = [
+    # (kernel, target, beta, nu, m, d): heavy-tailed modes (small nu: the mixing scale varies a lot) and a Gaussian-like one
+    ("tpcn", "interior", 1.0, 1.0, 10, 1),
+    ("tpcn", "interior", 0.5, 2.0, 6, 2),
+    ("tpcn", "tilted", 1.0, 1.0, 10, 1),
+    ("tpcn", "uniform", 1.0, 30.0, 8, 1),
+    ("rwm", "interior", 1.0, 3.0, 10, 1),
+    ("rwm", "tilted", 1.0, 3.0, 6, 2),
+]
+
+
 CELLS_2D = [
     # (kernel, boundary, rho, sigma, known_id)
     ("tpcn", "hard", 0.9, 0.5, None),                                 # proved: C03_tpcn_hard_reject (needs L L^T = Sigma)
@@ -674,8 +726,11 @@ def _cells(tier):
 
 def search(tier, hints):
     run_found = _run_oracles(tier)          # exact, deterministic oracles on the run loop (cheap; before the chi-square cells)
-    if run_found:
-        return run_found
+    # the invariance statement for the k-th pass of ONE stateful runner (the one-step cells below start a fresh runner from exact
+    # draws and cannot see state carried from pass to pass): first whenever the run suites or the run oracles disagree
+    multi_found = _multi_step_search(tier, hints)
+    if multi_found or run_found:
+        return multi_found + run_found
     base = common.seed()
     n = 200000 if tier == "quick" else 500000
     kinds = {h.get("kind") for h in hints if h.get("kind")}
@@ -726,10 +781,34 @@ def search(tier, hints):
     return found
 
 
+def _multi_step_search(tier, hints):
+    base = common.seed()
+    n = 40000 if tier == "quick" else 100000
+    kinds = {h.get("kind") for h in hints if h.get("kind")}
+    cells = sorted(CELLS_MULTI, key=lambda c: 0 if c[0] in kinds else 1)
+    for kernel, target, beta, nu, m, d in cells:
+        tag = f"multi/{kernel}/{target}/{beta}/{nu}/{m}/{d}"
+        seed = (base * 1000003 + int(common.digest(tag), 16)) % (2 ** 31 - 1)
+        r = multi_step_cell(kernel, target, beta, nu, m, seed, n=n, d=d)
+        if r["chi2_before"] > r["threshold"]:
+            raise common.LeanError(f"oracle self-check failed: exact sampler of target {target} has chi2 {r['chi2_before']}")
+        if r["fails"]:
+            return [{"what": f"multi-step invariance violated: after {r['passes']} passes of ONE parallel_mcmc call (n_steps = n_max = {m}, "
+                             f"d = {d}, everything enabled) from exact target draws chi2={r['chi2']:.1f} > {r['threshold']:.1f} "
+                             f"(p<1e-9, {NBINS} bins, N={n}; before the call {r['chi2_before']:.1f})",
+                     "oracle": "c03multi", "kernel": kernel, "target": target, "beta": beta, "nu": nu, "m": m, "d": d, "seed": seed, "n": n,
+                     "chi2": r["chi2"], "edge_ratio": r["edge_ratio"], "passes": r["passes"]}]
+    return []
+
+
 def replay(obj):
     f = obj.get("failing_input", obj)
     if f.get("oracle") == "c03run":
         return _run_oracle_replay(f)
+    if f.get("oracle") == "c03multi":
+        r = multi_step_cell(f["kernel"], f["target"], f["beta"], f["nu"], f["m"], f["seed"], n=f.get("n", 40000), d=f.get("d", 1))
+        return {"fails": bool(r["fails"]), "detail": f"chi2={r['chi2']:.1f} threshold={r['threshold']:.1f} after {r['passes']} passes "
+                                                     f"(before: {r['chi2_before']:.1f}) edge_ratio={r['edge_ratio']}"}
     if f.get("oracle") == "c03ms":
         return c03_modes.replay(f)
     if "witness" in f.get("replay", {}):
@@ -771,6 +850,11 @@ MODELLED = [m for m in MODELLED if not m.startswith("`_check_convergence`")] + [
     "run loop: `np.average(sigmas[:m], weights=sizes)`, `.mean()` are left folds in the model (regime T); `int(x)` of the "
     "non-negative bounded step count is `floor`; the per-iteration gamma / normal / uniform draws, prior_transform(u') and "
     "log_likelihood(x') are tapes; blobs and the progress bar are outside the model"]
+RULE = RULE + (
+    " search additionally: multi-step invariance cells (CELLS_MULTI: exact target draws -> one real parallel_mcmc call with "
+    "n_steps = n_max = m, 8-12 passes of one stateful runner, adaptation enabled, chi-square p < 1e-9) and, inside the run "
+    "oracles, the randomness consumed per pass (tpCN: exactly one gamma draw per walker per pass with the shape / scale the "
+    "walker's current position prescribes; RWM none; one normal vector per walker, one uniform vector per pass).")
 ASSUMPTIONS = ASSUMPTIONS + [
     "run loop (Props/C03Run.lean): adaptation ACROSS steps makes the chain history-dependent; proved is what the one-step theorems "
     "need at every pass (assignments fixed, one sigma vector per pass handed over only between passes, cube and tpCN range "
@@ -1023,6 +1107,30 @@ def _run_invariants(cfg, obs, out):
                     bad.append(f"pass {t} walker {k}: out-of-cube candidate not rejected (alpha={p['alpha'][k]})")
             elif not np.array_equal(p["u_prime"][k], p["cand"][k]):
                 bad.append(f"pass {t} walker {k}: in-cube candidate altered before evaluation")
+        # the randomness consumed by the pass (H_tapes of the invariance theorems: every pass is a FRESH draw of all tapes, with
+        # the gamma law the walker's CURRENT position prescribes): tpCN exactly one gamma per walker with shape (d + nu)/2 and
+        # scale 2/(nu + dot(u_before)); RWM none; one normal vector per walker; one uniform vector
+        tp = obs["tape"].passes[t - 1] if t - 1 < len(obs["tape"].passes) else dict(g={}, z={}, r=None)
+        want_g = set(range(n)) if kind == "tpcn" else set()
+        if set(tp["g"]) != want_g:
+            miss = sorted(want_g - set(tp["g"]))[:5]
+            bad.append(f"pass {t}: gamma draws for walkers {sorted(tp['g'])[:8]}... instead of one per walker "
+                       f"({'none' if kind != 'tpcn' else 'all ' + str(n)}); walkers without a fresh mixing draw: {miss} "
+                       f"(a scale variable carried over from an earlier pass is not the tpCN kernel)")
+        elif kind == "tpcn":
+            for k in range(n):
+                c_ = int(fz["assign"][k])
+                dv = p["u_before"][k] - fz["means"][c_]
+                dot = float(dv @ fz["inv"][c_] @ dv)
+                nu_ = float(fz["dof"][c_])
+                sh, sc, _g = tp["g"][k]
+                if not (_close(sh, (d + nu_) / 2.0, abs(sh)) and _close(sc, 2.0 / (nu_ + dot), abs(sc))):
+                    bad.append(f"pass {t} walker {k}: gamma(shape={sh}, scale={sc}) requested, the walker's current position "
+                               f"prescribes shape={(d + nu_) / 2.0}, scale={2.0 / (nu_ + dot)}")
+                    break
+        if set(tp["z"]) != set(range(n)) or tp["r"] is None or len(tp["r"]) != n:
+            bad.append(f"pass {t}: normal vectors for {len(tp['z'])} of {n} walkers / uniform vector "
+                       f"{'missing' if tp['r'] is None else len(tp['r'])}: not one fresh draw per walker and pass")
         # the states stay in the cube
         if obs["strict"] and not (np.all(p["u_after"][:, obs["strict"]] >= 0) and np.all(p["u_after"][:, obs["strict"]] <= 1)):
             bad.append(f"pass {t}: a state left the unit cube")
